@@ -30,8 +30,12 @@ try:
     if rc != 0:
         meta['apply_error'] = out[-500:]
     else:
-        rc, out = sh('/venv/bin/python -m pytest -q -p no:cacheprovider -x 2>&1 | tail -3', cwd=wt)
-        meta['tests_with'] = out.strip()[-200:]
+        for _attempt in range(3):     # test_make_http_servers_noauth binds a fixed port: parallel runs can collide
+            rc, out = sh('/venv/bin/python -m pytest -q -p no:cacheprovider -x 2>&1 | tail -3', cwd=wt)
+            meta['tests_with'] = out.strip()[-200:]
+            if 'passed' in out and 'failed' not in out:
+                break
+            time.sleep(5)
         rc, out = sh('PYTHONPATH=%s /venv/bin/python m/demo.py' % wt, cwd=wt)
         meta['demo_with'] = {'rc': rc, 'tail': out[-600:]}
 finally:
